@@ -92,6 +92,7 @@ bool ExecImpl::report_matches(const PRep& p, const XRep& x, std::string& why) {
         const MMon& m = M.mons[x.mon];
         const MonShape& ms = mon_shape(m.nseq);
         if (!loc_is(ms.file, ms.line) || p.text != ms.call_name) { why = "names '" + p.text + "'"; return false; }
+        if (x.seqidx >= 0 && p.seqname != "s" + std::to_string(x.seqidx)) { why = "names sequence \"" + p.seqname + "\""; return false; }
         return true;
       }
       for (int id : x.m_set) {
@@ -201,8 +202,9 @@ void ExecImpl::check_reports(Obs& o, std::vector<XRep>& want, bool multiset, con
   std::vector<bool> used(want.size(), false);
   for (auto& g : got) {
     bool found = false; std::string why, lastwhy;
+    for (int pass = 0; pass < 2 && !found; ++pass)   // required reports are matched before optional ones
     for (size_t i = 0; i < want.size(); ++i) {
-      if (used[i]) continue;
+      if (used[i] || want[i].optional != (pass == 1)) continue;
       why.clear();
       if (report_matches(g, want[i], why)) { used[i] = true; found = true; break; }
       if (g.kind == want[i].kind && g.text == (want[i].exp >= 0 ? M.exps[want[i].exp].sd().text : "")) lastwhy = why;
@@ -301,20 +303,21 @@ void ExecImpl::op_destroy_watched(const Op& op) {
     ++st.p_monitor_unexpected;
   } else {
     ++st.p_monitor_ok;
-    // newest monitor first
+    // in order of creation
     std::vector<int> ms = w.monitors;
-    std::sort(ms.begin(), ms.end(), [&](int a, int b) { return M.mons[a].order > M.mons[b].order; });
+    std::sort(ms.begin(), ms.end(), [&](int a, int b) { return M.mons[a].order < M.mons[b].order; });
     for (int mid : ms) {
       MMon& m = M.mons[mid];
       for (int i = 0; i < m.nseq; ++i) {
         if (m.seq[i] < 0) continue;
         bool eligible = m.in_seq[i] && M.pos_in(m.seq[i], true, mid) >= 0;
         if (!eligible && !M.seqs[m.seq[i]].tainted) {
-          XRep x; x.kind = RK_SEQMISMATCH; x.fatal = false; x.mon = mid; want.push_back(x);
+          XRep x; x.kind = RK_SEQMISMATCH; x.fatal = false; x.mon = mid; x.seqidx = i; want.push_back(x);
           M.seqs[m.seq[i]].tainted = true;
           ++st.p_monitor_seq_violation;
-        } else if (!eligible) {
-          XRep x; x.kind = RK_SEQMISMATCH; x.fatal = false; x.mon = mid; x.optional = true; want.push_back(x);
+        } else if (M.seqs[m.seq[i]].tainted) {
+          // after a reported violation nothing is asserted about this sequence (DESIGN 3.5): a report is allowed, not required
+          XRep x; x.kind = RK_SEQMISMATCH; x.fatal = false; x.mon = mid; x.seqidx = i; x.optional = true; want.push_back(x);
         }
       }
       m.died = true;
